@@ -15,6 +15,8 @@ def classify(data):
         cls.add("gt8k")
     if len(data) > (1 << 20):
         cls.add("gt1M")
+    if len(data) > (4 << 20):
+        cls.add("gt4M")
     if data and not data.endswith(b"\n"):
         cls.add("no_final_newline")
     try:
@@ -77,6 +79,12 @@ def judge_files(files_before, out, truth=None, structured=False):
         classes |= cl
         if len(toks) >= 1000:
             classes.add("ge1000_insertions")
+        offs = sorted(t["off"] for t in toks)
+        if offs:
+            runs = [offs[0]] + [b_ - a_ for a_, b_ in zip(offs, offs[1:])] + [len(before) - offs[-1]]
+            for name, blk in (("4KiB", 4096), ("64KiB", 65536), ("1MiB", 1 << 20)):
+                if any(r and r % blk == 0 for r in runs):
+                    classes.add("copy_run_multiple_of_" + name)
         # multi-byte text before an insertion point
         if "multibyte" in cl and any(max(before[:t["off"]], default=0) > 127 for t in toks[:3]):
             classes.add("multibyte_before_insertion")
@@ -119,6 +127,37 @@ def work(job):
                 gf.raw("    let filler_%d = \"%s\";%s" % (k, "-+" * rnd.randrange(0, 1500), eol))
         files = {"src/big.rs": gf.data()}
         truth = {"src/big.rs": [(it.start, it.end, it.start + it.stmt.msg, None, it) for it in gf.stmts()]}
+    elif kind == "sized":
+        # copy-loop geometry: the three copied runs (start..first insertion, between insertions, last insertion..end) have
+        # lengths that are exact multiples of a power-of-two block size (or one byte off), and / or the file is larger than
+        # 4 / 8 MiB. Statement-sparse on purpose (run time is O(statements x size), DESIGN 13.2).
+        huge = payload
+        B = rnd.choice([512, 4096, 8192, 16384, 65536, 65536, 131072, 1 << 20])
+
+        def seglen():
+            return rnd.choice([1, 1, 2, 3]) * B + rnd.choice([0, 0, 0, 0, -1, 1])
+
+        def pad(n):
+            out = bytearray()
+            while n >= 260:
+                out += b"// " + bytes(rnd.choice(b"abcdefgh -=") for _ in range(8)) * 15 + b"zzzz\n"      # 128 bytes
+                n -= 128
+            out += b"//" + b"p" * (n - 3) + b"\n"
+            return bytes(out)
+        s1 = b'    info!("SZ%d first");\n' % i
+        s2 = b'    warn!("SZ%d second");\n' % i
+        s3 = (b'    error!(ref = 7; "SZ%d referenced");\n' if structured else b'    error!("[ref: 7] SZ%d referenced");\n') % i
+        ins = len(b'    info!(') + (0 if structured else 1)
+        L1, L2, L3 = seglen(), seglen(), seglen()
+        f1 = pad(max(3, L1 - ins))
+        f2 = pad(max(3, L2 - (len(s1) - ins) - ins))
+        extra_tail = pad(rnd.choice([4, 5, 8, 9]) * (1 << 20) + rnd.randrange(0, 4096)) if huge else b""
+        f3 = pad(max(3, L3 - (len(s2) - ins) - len(s3) - len(extra_tail))) if L3 - (len(s2) - ins) - len(s3) - len(extra_tail) >= 3 else b"//\n"
+        order = rnd.choice(["ref_last", "ref_mid"])
+        data = f1 + s1 + f2 + s2 + (f3 + extra_tail + s3 if order == "ref_last" else s3 + f3 + extra_tail)
+        files = {"src/sized.rs": data}
+        res["counters"]["sized_files"] = 1
+        res["counters"]["sized_files_gt4MiB"] = int(len(data) > (4 << 20))
     elif kind == "crafted":
         # hand-written edge cases (shared with C17) plus byte-level oddities around insertion points
         from . import c17
@@ -186,6 +225,8 @@ def main(tier):
         jobs.append((built, "big", ck.seed, i, n))
     for i in range(8):
         jobs.append((built, "crafted", ck.seed, i, i % 4))
+    for i in range(150 if quick else 1500):
+        jobs.append((built, "sized", ck.seed, i, i % 25 == 0))
     shards, reg = trees.corpus_shards(rnd, 16, registry_n=0 if quick else 1500)
     for i, sh in enumerate(shards):
         jobs.append((built, "corpus", ck.seed, i, sh))
@@ -197,7 +238,7 @@ def main(tier):
         ck.absorb(res)
     ck.extra["registry_corpus"] = reg > 0
     ck.extra["registry_files"] = reg
-    need = ["class_crlf", "class_gt8k", "class_gt1M", "class_multibyte", "class_ge1000_insertions", "class_no_final_newline"]
+    need = ["class_crlf", "class_gt8k", "class_gt1M", "class_gt4M", "class_copy_run_multiple_of_64KiB", "class_copy_run_multiple_of_4KiB", "class_multibyte", "class_ge1000_insertions", "class_no_final_newline"]
     ck.extra["required_classes_seen"] = {k: ck.counters.get(k, 0) for k in need}
     for k in need:
         if not ck.counters.get(k):
